@@ -10,7 +10,69 @@ pub fn run_case(kind: &str, fields: Vec<String>) -> Vec<String> {
             "open".to_string()
         }],
         "progx" => progx::run(fields),
+        "imports" => crate::on_fresh_thread(move || imports(&fields)),
+        "evalfile" => crate::on_fresh_thread(move || evalfile(&fields)),
         "expand" => crate::on_fresh_thread(move || expand::run(&fields)),
         _ => vec![format!("X unknown-kind {}", kind)],
+    }
+}
+
+/// `evalfile`: fields = mode, file content as hex bytes (or `DIR` / `MISSING`); the result of
+/// `Interpreter::eval_file` on such a file
+fn evalfile(fields: &[String]) -> Vec<String> {
+    let dir = std::env::var("HX_TMP").unwrap_or_else(|_| "/verif/build/tmp".to_string());
+    let base = format!("{}/evalfile-{}-{:?}", dir, std::process::id(), std::thread::current().id());
+    std::fs::create_dir_all(&base).ok();
+    let path = match fields[1].as_str() {
+        "DIR" => std::path::PathBuf::from(&base),
+        "MISSING" => std::path::PathBuf::from(format!("{}/missing.scm", base)),
+        hex => {
+            let bytes: Vec<u8> = (0..hex.len() / 2).map(|i| u8::from_str_radix(&hex[2 * i..2 * i + 2], 16).unwrap()).collect();
+            let p = std::path::PathBuf::from(format!("{}/prog.scm", base));
+            std::fs::write(&p, bytes).unwrap();
+            p
+        }
+    };
+    let mut it = progx::new_interpreter(&fields[0]);
+    let r = match std::panic::catch_unwind(std::panic::AssertUnwindSafe(|| it.eval_file(path))) {
+        Ok(Ok(Some(v))) => format!("V {}", crate::canon_value(&v)),
+        Ok(Ok(None)) => "N".to_string(),
+        Ok(Err(e)) => crate::canon_err(&e),
+        Err(p) => crate::panic_message(p),
+    };
+    std::fs::remove_dir_all(&base).ok();
+    vec![r]
+}
+
+/// `imports`: field = text of one import declaration, evaluated on a fresh `Interpreter::default()`
+/// in which a native library `(m)` exporting a b c d = 1 2 3 4 is registered; the bindings of the
+/// root environment afterwards, sorted by name.
+fn imports(fields: &[String]) -> Vec<String> {
+    use ruschm::interpreter::{Interpreter, LibraryFactory};
+    use ruschm::parser::LibraryName;
+    use ruschm::values::{Number, Value};
+    let mut it = Interpreter::<f32>::default();
+    it.register_library_factory(LibraryFactory::Native(
+        LibraryName(vec!["m".into()]),
+        Box::new(|| {
+            vec![("a", 1), ("b", 2), ("c", 3), ("d", 4)]
+                .into_iter()
+                .map(|(n, v)| (n.to_string(), Value::Number(Number::Integer(v))))
+                .collect()
+        }),
+    ));
+    match it.eval(fields[0].chars()) {
+        Err(e) => vec![crate::canon_err(&e)],
+        Ok(_) => {
+            let mut defs: Vec<String> = Vec::new();
+            {
+                let mut definitions = it.env.iter_local_definitions();
+                while let Some((k, v)) = definitions.next() {
+                    defs.push(format!("{}={}", crate::esc(k), crate::canon_value(v)));
+                }
+            }
+            defs.sort();
+            defs
+        }
     }
 }
